@@ -42,9 +42,16 @@ func c17Source(k int, lv int) map[string]string {
 		2: "func Sig(a int, b int) int {\n\treturn 2000 + a + b\n}\n\nfunc CallSig() int { return Sig(1, 2) }\n\n",
 		3: "func Sig(xs ...int) int {\n\treturn 3000 + len(xs)\n}\n\nfunc CallSig() int { return Sig(1, 2, 3) }\n\n",
 	}[k]
+	// a function that is EMPTY in version 1 and has a body from version 2 on (HookB, in the common part, is empty in every
+	// version: what HookA gains is HookA's alone)
+	if k == 1 {
+		sig += "func HookA() {\n}\n\n"
+	} else {
+		sig += fmt.Sprintf("func HookA() {\n\tHooked += %d\n}\n\n", k)
+	}
 	tag += sig
 	typ := "type T struct {\n\tX int\n\tH func() int\n}\n\n"
-	vars := fmt.Sprintf("var Counter int\nvar Base int = %d\nvar Zeroed int = 0\nvar ZeroedF float64 = 0\nvar Inst *T\nvar BM func() int\nvar BM1 func(int) int\nvar BMV func(int, ...int) int\nvar Any any\nvar Sh Shape\nvar Err error\nvar Reg map[string]int\nvar Names []string\n\ntype Shape interface {\n\tM() int\n}\n\n", 100+k)
+	vars := fmt.Sprintf("var Counter int\nvar Base int = %d\nvar Zeroed int = 0\nvar ZeroedF float64 = 0\nvar Inst *T\nvar BM func() int\nvar BM1 func(int) int\nvar BMV func(int, ...int) int\nvar Any any\nvar Sh Shape\nvar Err error\nvar Reg map[string]int\nvar Names []string\nvar Hooked int\nvar CapHook func()\nvar Banner = Tag() * 1000\n\ntype Shape interface {\n\tM() int\n}\n\n", 100+k)
 	rest := `func Bump() int {
 	Counter++
 	return Counter
@@ -83,6 +90,24 @@ func ReadAny() int {
 	}
 	return n
 }
+
+func HookB() {
+}
+
+// HookB, called directly and through a value captured at the first opportunity, never does anything
+func RunHooks() int {
+	if CapHook == nil {
+		CapHook = HookB
+	}
+	before := Hooked
+	HookB()
+	CapHook()
+	HookB()
+	return Hooked - before
+}
+
+// the initialiser of Banner calls Tag: it is evaluated again by every load, with the body that load brings
+func ReadBanner() int { return Banner }
 
 // an instance made after a load shows its fields as before (the type is the same in every version)
 type Pt struct {
@@ -201,7 +226,11 @@ func c17Replay(c *Ctx, hist []reloadStep, lv int) {
 				}
 				break
 			}
-			err = vm.Load(mapFS(c17Source(st.Arg, lv)), "main")
+			if lv%4 <= 1 && (lv/8)%2 == 1 {
+				err = vm.Load(mapFS(c17Source(st.Arg, lv)), "main/main.go") // the same package, addressed by its file
+			} else {
+				err = vm.Load(mapFS(c17Source(st.Arg, lv)), "main")
+			}
 			loaded = true
 		case "call-direct":
 			got, err = call1("main.Tag")
@@ -213,6 +242,23 @@ func c17Replay(c *Ctx, hist []reloadStep, lv int) {
 				if err == nil && g2 != want {
 					fail(i, fmt.Sprintf("CallSig() returned %d, version %d gives %d", g2, st.Want, want))
 					return
+				}
+				if err == nil {
+					g2, err = call1("main.RunHooks")
+					if err == nil && g2 != 0 {
+						fail(i, fmt.Sprintf("a function that is empty in every version did something (the counter another function's new body updates moved by %d)", g2))
+						return
+					}
+				}
+				if err == nil {
+					_, err = vm.Call("main.HookA", 0)
+				}
+				if err == nil {
+					g2, err = call1("main.ReadBanner")
+					if err == nil && g2 != st.Want*1000 {
+						fail(i, fmt.Sprintf("the variable initialised with Tag()*1000 holds %d after version %d was loaded", g2, st.Want))
+						return
+					}
 				}
 				if err == nil {
 					g2, err = call1("main.Fresh")
